@@ -386,12 +386,35 @@ impl Space for Encrypt {
                         }
                     };
                     let inp = format!("{}/in{}.bin", dir, run);
-                    if let Err(e) = std::fs::write(&inp, &payload) {
+                    // the second save of every case reads its source from a NAMED PIPE fed by another thread: a legal source
+                    // whose metadata says nothing about how many bytes will come
+                    let mut feeder = None;
+                    let _ = std::fs::remove_file(&inp);
+                    let fifo_ok = run == 1 && {
+                        let cp = std::ffi::CString::new(inp.clone()).unwrap();
+                        unsafe { libc::mkfifo(cp.as_ptr(), 0o600) == 0 }
+                    };
+                    if fifo_ok {
+                        sink.count("set_password_sources_that_are_named_pipes", 1);
+                        let (p2, data) = (inp.clone(), payload.clone());
+                        feeder = Some(std::thread::spawn(move || {
+                            use std::io::Write;
+                            if let Ok(mut f) = std::fs::OpenOptions::new().write(true).open(&p2) {
+                                let _ = f.write_all(&data);
+                            }
+                        }));
+                    } else if let Err(e) = std::fs::write(&inp, &payload) {
                         eprintln!("MACHINERY: cannot write {}: {}", inp, e);
                         std::process::exit(2);
                     }
                     let (a, b) = (inp.clone(), out.clone());
                     let r = guarded(move || umya_spreadsheet::writer::xlsx::set_password(Path::new(&a), Path::new(&b), &pw).map_err(|e| format!("{:?}", e)));
+                    if let Some(h) = feeder {
+                        // should the library never have opened the pipe, release the feeder (its open() waits for a reader)
+                        use std::os::unix::fs::OpenOptionsExt;
+                        let _ = std::fs::OpenOptions::new().read(true).custom_flags(libc::O_NONBLOCK).open(&inp);
+                        let _ = h.join();
+                    }
                     (payload, r)
                 }
                 EntryPoint::Write | EntryPoint::WriteLight => {
@@ -531,7 +554,7 @@ fn run(ctx: &Ctx) -> i32 {
             spaces,
             cfg: PoolCfg { chunk: 1, case_timeout: std::time::Duration::from_secs(120), ..Default::default() },
             level: "exploration",
-            rule: "full product password alphabet x synthetic payload sizes through writer::xlsx::set_password (file to file; in the thorough tier: the 7 stated passwords x all extended sizes and the extra passwords x the 13 stated sizes), plus every password x {real package, real light package} through set_password and through write_with_password / write_with_password_light on the workbook itself; every case performs the save twice. Each produced file is opened by the harness's own MS-OFFCRYPTO agile reader (cfb container parser + own descriptor parsing, key derivation, verifier, segment decryption, HMAC); clauses: container, descriptor, verifier (right password), wrong-password (password+'x', empty, password minus last char), length, plaintext, integrity, fresh-within-file, fresh-between-saves; the one-case space `freshness` checks pairwise distinctness of all salts/verifier inputs/package keys/HMAC keys over the whole run. distinct_nontrivial = distinct (entry, password, declared length, hash of decrypted plaintext) observations plus distinct random values seen by `freshness`".into(),
+            rule: "full product password alphabet x synthetic payload sizes through writer::xlsx::set_password (file to file; in the thorough tier: the 7 stated passwords x all extended sizes and the extra passwords x the 13 stated sizes), plus every password x {real package, real light package} through set_password and through write_with_password / write_with_password_light on the workbook itself; every case performs the save twice (for set_password the second time from a named pipe fed by another thread). Each produced file is opened by the harness's own MS-OFFCRYPTO agile reader (cfb container parser + own descriptor parsing, key derivation, verifier, segment decryption, HMAC); clauses: container, descriptor, verifier (right password), wrong-password (password+'x', empty, password minus last char), length, plaintext, integrity, fresh-within-file, fresh-between-saves; the one-case space `freshness` checks pairwise distinctness of all salts/verifier inputs/package keys/HMAC keys over the whole run. distinct_nontrivial = distinct (entry, password, declared length, hash of decrypted plaintext) observations plus distinct random values seen by `freshness`".into(),
             alphabets: json!({
                 "passwords": pws.iter().map(|p| if p.text.chars().count() > 40 { format!("{} chars starting {:?}", p.text.chars().count(), p.text.chars().take(10).collect::<String>()) } else { p.text.clone() }).collect::<Vec<_>>(),
                 "synthetic_sizes": szs,
